@@ -433,6 +433,17 @@ class Driver:
             # frequency below the first or above the last pole / frequency line (possibly negative)
             a_, b_ = rng.choice(beyond)
             return {"x": float(rng.uniform(a_, b_)), "y": float(rng.uniform(y0, y1))}
+        if m.variant != "FDD":
+            # the same for the order axis: below order 0 (negative ydata) or above the last order of the table
+            ncols = m.Fn.shape[1]
+            ybeyond = [(min(y0, y1), -0.5)] if min(y0, y1) < -0.5 else []
+            ybeyond += [(ncols - 0.5, max(y0, y1))] if max(y0, y1) > ncols - 0.5 else []
+            if ybeyond and rng.random() < (0.4 if self.swarm.get("zoom_out_first") else 0.15):
+                a_, b_ = rng.choice(ybeyond)
+                fin = m.Fn[np.isfinite(m.Fn)]
+                x = float(fin[rng.randrange(len(fin))]) + rng.gauss(0, 0.004) * (x1 - x0) if len(fin) and rng.random() < 0.7 else rng.uniform(x0, x1)
+                self.inc("probe.click_beyond_order_range")
+                return {"x": float(x), "y": float(rng.uniform(a_, b_))}
         if rng.random() < 0.06:
             # a coordinate that is exactly a special value: a table frequency / frequency line, 0 Hz, an axis limit
             if m.variant == "FDD":
@@ -489,6 +500,10 @@ class Driver:
     def _gen_event(self):
         rng, sw = self.rng, self.swarm
         W = sw["w"]
+        if sw.get("zoom_out_first") and not getattr(self, "_zoomed_out", False):
+            self._zoomed_out = True
+            return {"ev": "zoom", "fx": [round(rng.uniform(-0.3, -0.05), 3), round(rng.uniform(1.05, 1.3), 3)],
+                    "fy": [round(rng.uniform(-0.4, -0.1), 3), round(rng.uniform(1.05, 1.3), 3)]}
         plan = sw.get("plan")
         if plan:
             # a hand with a purpose: phases of picking and of deselecting, modifier held throughout
@@ -764,7 +779,9 @@ def gen_swarm(rng, tier="quick"):
             plan.append(("desel", rng.randint(0, 3)))
         nev = max(nev, sum(n for _, n in plan) + 2)
     return {"nevents": nev, "w": W, "faulty": faulty, "plan": plan, "p_drop": rng.choice([0.03, 0.08]), "p_dup": rng.choice([0.03, 0.08]),
-            "p_swap": rng.choice([0.03, 0.08]), "descending": rng.random() < 0.5, "render": rng.random() < 0.1}
+            "p_swap": rng.choice([0.03, 0.08]), "descending": rng.random() < 0.5, "render": rng.random() < 0.1,
+            # the user zooms out / pans before doing anything else: the view then extends beyond the table on all sides
+            "zoom_out_first": rng.random() < 0.15}
 
 
 def run_case(seed, tier="quick", case=None, known=()):
